@@ -29,7 +29,7 @@ from pyvc.spec import implies, unbe, be, ghost_get, ghost_set, is_instance_of
 import bromelia.process as P
 import bromelia.statemachine as SM
 import bromelia.messages as M
-from contracts.assoc import (association, inbound, connection, CMD_CE, CMD_DW, CMD_DP)
+from contracts.assoc import (association, inbound, connection, transport, CMD_CE, CMD_DW, CMD_DP)
 
 BASE_CMDS = T.OneOf(T.Const(CMD_CE), T.Const(CMD_DW), T.Const(CMD_DP))
 
@@ -486,7 +486,9 @@ def puts_after_take_answer_it(self, log):
 
 @contract("bromelia.statemachine.Open.run", prop="C07", name="tick")
 class _OpenTick:
-    args = {"self": state_obj(SM.Open, T.NoneS, mode=T.Const("SERVER"), send=T.Sync("queue", extra=True))}
+    # whatever the transport thread is doing: idle (mask 1) or still writing the previous stream (mask 3)
+    args = {"self": state_obj(SM.Open, T.NoneS, mode=T.Const("SERVER"), send=T.Sync("queue", extra=True),
+                              transport_shape=transport(mask=T.OneOf(T.Const(1), T.Const(3))))}
     setup_spec = link
 
     def ensures_at_most_one_message_taken(self):
